@@ -162,7 +162,8 @@ class DomainSession:
         for nm, got, init, model, normed in (("x", ox, self.ox, self.omx, self.norm_x),
                                              ("y", oy, self.oy, self.omy, self.norm_y)):
             if not normed:
-                if got.dtype != init.dtype or not np.array_equal(got, init):
+                # the values the Weaver was constructed with (a Weaver that stores them as float64 keeps them too)
+                if got.shape != init.shape or not np.array_equal(got, init):
                     self.fail(f"{when}: original {nm} changed")
             else:
                 tol = 1e-9 * float(np.max(np.abs(model))) + 1e-300
